@@ -337,6 +337,7 @@ class QuicConnection:
         self._max_datagram_size = configuration.max_datagram_size
         self._network_paths: list[QuicNetworkPath] = []
         self._pacing_at: Optional[float] = None
+        self._transmit_at: Optional[float] = None
         self._packet_number = 0
         self._peer_cid = QuicConnectionId(
             cid=os.urandom(configuration.connection_id_length), sequence_number=None
@@ -537,6 +538,7 @@ class QuicConnection:
             # acceptable packet has been received yet
             return []
         network_path = self._network_paths[0]
+        self._transmit_at = now
 
         # build datagrams
         builder = QuicPacketBuilder(
@@ -685,9 +687,20 @@ class QuicConnection:
         """
         timer_at = self._close_at
         if self._state not in END_STATES:
+            # An ACK or pacing deadline which had already expired the last time
+            # we transmitted could not be acted upon then (for instance on a
+            # path which is at its anti-amplification limit). Asking to be woken
+            # up for it again would make the caller spin, it gets another chance
+            # the next time something happens.
+            transmit_at = self._transmit_at
+
             # ack timer
             for space in self._loss.spaces:
-                if space.ack_at is not None and space.ack_at < timer_at:
+                if (
+                    space.ack_at is not None
+                    and space.ack_at < timer_at
+                    and (transmit_at is None or space.ack_at > transmit_at)
+                ):
                     timer_at = space.ack_at
 
             # loss detection timer
@@ -696,7 +709,11 @@ class QuicConnection:
                 timer_at = self._loss_at
 
             # pacing timer
-            if self._pacing_at is not None and self._pacing_at < timer_at:
+            if (
+                self._pacing_at is not None
+                and self._pacing_at < timer_at
+                and (transmit_at is None or self._pacing_at > transmit_at)
+            ):
                 timer_at = self._pacing_at
 
         return timer_at
